@@ -80,6 +80,10 @@ def systems(tier):
         for tol in (0.0, 0.3):
             # rings need the face-diagonal directions (60 degree angles exist among them) to be closable within one step
             out.append(dict(types=[typ], molecules=[(typ, 1)], box=BOX, grid=GRID, cyc=True, bundle="axis+face18", kwargs=dict(cycles=[typ], cycle_tol=tol, nrewind=3, maxiter=4)))
+    # declared cyclic and grown from a residue in the middle of the ring (-start): the search tree runs against the residue order
+    for typ, st in (("RING5", "RING5#0-S#3"), ("RING6", "RING6#0-S#4"), ("RING4", "RING4-S#2")):
+        out.append(dict(types=[typ], molecules=[(typ, 1)], box=BOX, grid=GRID, cyc=True, bundle="axis+face18",
+                        kwargs=dict(cycles=[typ], cycle_tol=0.3, nrewind=3, maxiter=4, start=[st])))
     for typ in ("LASSO", "LASSO0"):
         out.append(dict(types=[typ], molecules=[(typ, 1)], box=BOX, grid=GRID, cyc=True, bundle="axis+face18", kwargs=dict(cycles=[typ], cycle_tol=0.3, nrewind=3, maxiter=4)))
     for typ in ("CH5", "CH6"):
